@@ -1,5 +1,6 @@
 import PortusModel.Props.C16
 import PortusModel.Props.C19
+import PortusModel.Props.C09History
 #print axioms Portus.C19.recv_never_panics
 #print axioms Portus.C16.loopStep_ok
 #print axioms Portus.C16.run_no_panic
@@ -9,3 +10,6 @@ import PortusModel.Props.C19
 #print axioms Portus.C08.next_no_panic
 #print axioms Portus.C04.from_buf_no_panic
 #print axioms Portus.Rt.step_ok
+#print axioms Portus.C02.history_refines_flat_map
+#print axioms Portus.C09.spec_ignored_is_identity
+#print axioms Portus.C09.spec_unknown_measure_is_identity
